@@ -119,7 +119,7 @@ func mutateTranscript(r Rng, in []byte) []byte {
 
 func runC03(ctx *Ctx) error {
 	r, res := ctx.Rng, ctx.Res
-	res.Rule = "inputs: (a) transcripts recorded from pairs of real sessions (both roles, with and without outbound messages), mutated at every layer: truncation, deletion, insertion (NUL, control bytes, short lines such as 'F>', ';PQ', 'FS A5000'), substitution, numeric boundary values in any decimal field, line replacement, duplication, bit flips; the remote's answer lines replaced by offset requests (!n, An) around the compressed and the uncompressed size of the message asked for; (b) scripted masters delivering payloads whose compressed bytes or decompressed message are damaged (garbage, short LZHUF header, CRC flip, negative/huge Body and File sizes, truncated sections; valid payloads behind proposal lines that declare a wrong uncompressed size, up to 2^63-1); (c) arbitrary bytes. Each is fed to a real Session.Exchange (then EOF). Oracle: returns nil/ErrConnLost/error within the watchdog, no panic, connection closed, allocation bounded by 32 MiB + 8 KiB per input byte. Correspondence: wire bytes, callbacks, stats and result class vs the model side. Non-trivial: mutated or damaged input; distinct by (config, input)."
+	res.Rule = "inputs: (a) transcripts recorded from pairs of real sessions (both roles, with and without outbound messages), mutated at every layer: truncation, deletion, insertion (NUL, control bytes, short lines such as 'F>', ';PQ', 'FS A5000'), substitution, numeric boundary values in any decimal field, line replacement, duplication, bit flips; the remote's answer lines replaced by offset requests (!n, An) around the compressed and the uncompressed size of the message asked for; (b) scripted masters delivering payloads whose compressed bytes or decompressed message are damaged (garbage, short LZHUF header, CRC flip, negative/huge Body and File sizes, File headers without a name or without a size, truncated sections; valid payloads behind proposal lines that declare a wrong uncompressed size, up to 2^63-1); (c) arbitrary bytes. Each is fed to a real Session.Exchange (then EOF). Oracle: returns nil/ErrConnLost/error within the watchdog, no panic, connection closed, allocation bounded by 32 MiB + 8 KiB per input byte. Correspondence: wire bytes, callbacks, stats and result class vs the model side. Non-trivial: mutated or damaged input; distinct by (config, input)."
 	type tc struct {
 		c  sideCfg
 		in []byte
@@ -230,6 +230,11 @@ func runC03(ctx *Ctx) error {
 	bodyHdr := regexp.MustCompile(`Body: [0-9]+`).Find(gb)
 	for _, v := range []string{"Body: -5", "Body: 99999999999", "Body: 9223372036854775808", "Body: 0", "Body: 1", "Body: x", "Body: +3"} {
 		damagedMsgs = append(damagedMsgs, repl(string(bodyHdr), v))
+	}
+	// attachment headers a handler trips over when it serialises the message it is handed: a size
+	// without a name, a name without a size, sizes that are negative, huge or not numbers
+	for _, v := range []string{"File: 5", "File: 5 ", "File: x", "File:", "File: a.txt", "File: -1 a.txt", "File: 99999999999 a.txt", "File: 0 a.txt", "File: 3 a.txt\r\nFile: 5"} {
+		damagedMsgs = append(damagedMsgs, repl(string(bodyHdr), string(bodyHdr)+"\r\n"+v))
 	}
 	damagedMsgs = append(damagedMsgs, gb[:len(gb)/2], gb[:10], []byte("\r\n\r\n"), []byte("no header at all"), repl("Date: ", "Date: x"), repl("Mid: ", "Mid : "), append([]byte(" "), gb...), nil)
 	for i := 0; i < ctx.N(40, 400); i++ {
